@@ -20,14 +20,10 @@ from pycoin.blockchain.ChainFinder import ChainFinder as _CF
 
 PROP = "C15"
 DRIVER = "C15"
-RULE = ("correspondence: one driver line per history (run/member), per ChainFinder load sequence (load), per exclusion-"
-        "predicate evaluation (excluded) and per spec weight (best_weight); distinct = distinct line; non-trivial = "
+RULE = ("correspondence: one driver line per history (run/member), per ChainFinder load sequence (load) and per spec "
+        "weight (best_weight); distinct = distinct line; non-trivial = "
         "the model returns a value that does not start with '!'")
 PARTIAL = [
-    "C15_statement is refuted on the current tree (three defect families, see known/C15.txt); C15_partial proves it "
-    "for every history on which the executable exclusion predicate Spec.ChainSpec.excluded returns None",
-    "ops replay and index-map agreement are not unconditional (refuted by the lock-with-tie witness); they are proved "
-    "under the same exclusion",
     "preload_locked_blocks, negative indices of tuple_for_index, unlocked_block_storage and did_lock_to_index_f are "
     "not modelled; change callbacks are only checked directly (they receive the returned ops list)",
 ]
@@ -44,8 +40,6 @@ ASSUMPTIONS = [
 ]
 
 ANCHOR = 1000
-ID_ORPHAN, ID_ANCHOR, ID_TIE = "orphan-parent-with-descendant", "anchor-redelivered", "lock-with-tie"
-REASON_ID = {1: ID_ORPHAN, 2: ID_ANCHOR, 3: ID_TIE}
 
 
 # ------------------------------------------------------------------------------------------------
@@ -240,52 +234,6 @@ def _register(nodes, old):
         p[h] = par
         new.append(h)
     return p, new
-
-
-def bad_batch(old, nodes):
-    p, new = _register(nodes, old)
-    waiting = set(old.values())
-    for t in new:
-        if t in waiting:
-            for a in new:
-                if a != t:
-                    x, steps = p.get(a), 0
-                    while x is not None and x != t and steps <= len(p):
-                        x = p.get(x)
-                        steps += 1
-                    if x == t:
-                        return True
-    return False
-
-
-def excluded(hist):
-    """mirror of Spec.ChainSpec.excluded: None | 1 | 2 | 3"""
-    anchor, nlocked, D, fk = hist["anchor"], 0, {}, {}
-    for ev in hist["events"]:
-        if ev[0] == "D":
-            if any(h == anchor for h, p, w in ev[1]):
-                return 2
-            nodes = [(h, p) for h, p, w in ev[1]]
-            if bad_batch(fk, nodes):
-                return 1
-            for h, p, w in ev[1]:
-                D.setdefault(h, (p, w))
-            fk, _ = _register(nodes, fk)
-        else:
-            if ev[1] <= nlocked:
-                continue
-            k = ev[1] - nlocked
-            hc = heaviest_chains(D, anchor)
-            if len(set(hc)) > 1:
-                return 3
-            c = hc[0]
-            if len(c) < k:
-                return None
-            for h in c[:k]:
-                fk.pop(h, None)
-            anchor = c[k - 1]
-            nlocked += k
-    return None
 
 
 def well_formed(hist):
@@ -513,14 +461,6 @@ def case_spy(hist, prios):
     return Case(line, (lambda: "T"), {"hist": hist, "prios": prios})
 
 
-def case_excluded(hist):
-    if hist["mode"] != "int":
-        return None
-    n = len(hist["events"])
-    line = "excluded %s %s" % (hexn(hist["anchor"]), " ".join(ev_tokens(hist, [[]] * n, [[]] * n)))
-    return Case(line, (lambda hist=hist: canon(excluded(hist))), {"hist": hist})
-
-
 def case_best_weight(hist):
     D = {}
     toks = []
@@ -583,8 +523,6 @@ def corpus_cases():
     yield case_plain(ANCHOR_HIST)
     yield case_plain(TIE_HIST)
     yield case_spy(TIE_SPY_HIST, TIE_SPY_PRIOS)
-    for h in (REFUTE_HIST, ANCHOR_HIST, TIE_HIST):
-        yield case_excluded(h)
 
 
 def _hists(rng, tier):
@@ -606,9 +544,9 @@ def model_cases(rng, tier):
     for h, pr in _hists(rng, tier):
         yield case_plain(h) if pr is None else case_spy(h, pr)
         if rng.random() < 0.5:
-            for c in (case_excluded(h), case_best_weight(h)):
-                if c is not None:
-                    yield c
+            c = case_best_weight(h)
+            if c is not None:
+                yield c
     # exhaustive small forests again under chosen pop orders (every permutation of the labels as priority)
     for n in range(2, (4 if tier == "quick" else 5)):
         for pf in forests(n):
@@ -659,7 +597,21 @@ def _pc(hist, prios):
     return PropCase("history", {"hist": hist, "prios": prios}, (lambda: check_history(hist, prios)))
 
 
+def regression_cases():
+    """the three histories on which the code failed before cdbeb46 / 30b0f94 / 0658a14, under the pop orders that
+    exposed the defects and under every pop order of the second batch"""
+    yield _pc(REFUTE_HIST, None)
+    for pr in ([8, 9], [9, 8]):
+        yield _pc(REFUTE_HIST, [[], pr])
+    yield _pc(ANCHOR_HIST, None)
+    yield _pc(TIE_HIST, None)
+    for pr in ([11, 3], [3, 11]):
+        yield _pc(TIE_SPY_HIST, [[], [], [], pr, []])
+
+
 def prop_cases(rng, tier):
+    for pc in regression_cases():
+        yield pc
     yield _pc({"anchor": 0, "mode": "int", "events": [["D", [[1, 0, 1], [2, 1, 1]]], ["D", [[3, 2, 2]]], ["L", 1]]}, None)
     for h, pr in _hists(rng, tier):
         if not well_formed(h):
@@ -670,10 +622,8 @@ def prop_cases(rng, tier):
 
 
 def classify(pc, r):
-    if pc.name != "history":
-        return None
-    e = excluded(pc.inp["hist"])
-    return REASON_ID.get(e)
+    """no open finding: every failure is a violation"""
+    return None
 
 
 def replay_input(check, inp):
@@ -682,11 +632,7 @@ def replay_input(check, inp):
     return {"kind": "unknown-check"}
 
 
-KNOWN_REPLAYS = {
-    ID_ORPHAN: lambda: check_history(REFUTE_HIST),
-    ID_ANCHOR: lambda: check_history(ANCHOR_HIST),
-    ID_TIE: lambda: check_history(TIE_HIST),
-}
+KNOWN_REPLAYS = {}
 
 
 def search(rng, tier, disagreements, known_ids):
